@@ -90,8 +90,8 @@ MUTANTS = [
     # ---------------- C10
     ("c10-full-name-cache", "C10", "pydbml/renderer/sql/default/utils.py",
      "def get_full_name_for_sql(model: Union[Table, Enum]) -> str:\n    if model.schema == 'public':",
-     "_names: dict = {}\n\n\ndef get_full_name_for_sql(model: Union[Table, Enum]) -> str:\n    if id(model) in _names:\n        return _names[id(model)]\n    _names[id(model)] = _full_name(model)\n    return _names[id(model)]\n\n\ndef _full_name(model: Union[Table, Enum]) -> str:\n    if model.schema == 'public':",
-     "passes", "SQL full names cached per object"),
+     "def get_full_name_for_sql(model: Union[Table, Enum]) -> str:\n    if '_full_name_sql' not in model.__dict__:\n        model.__dict__['_full_name_sql'] = _full_name(model)\n    return model.__dict__['_full_name_sql']\n\n\ndef _full_name(model: Union[Table, Enum]) -> str:\n    if model.schema == 'public':",
+     "passes?", "SQL full name cached on the object at first render"),
     ("c10-column-type-memo", "C10", "pydbml/renderer/sql/default/column.py",
      "    if isinstance(model.type, Enum):\n        components.append(get_full_name_for_sql_enum(model.type))",
      "    if isinstance(model.type, Enum):\n        components.append(model.__dict__.setdefault('_enum_sql', get_full_name_for_sql_enum(model.type)))",
